@@ -383,7 +383,7 @@ def w_bposd(cfg, tier):
                 if len(xd.pushed) != 2:
                     bad_upd.append(z3_and(p.pc))
                 else:
-                    zc = [bool_term(x) for x in np.asarray(zd.osdw_decoding)]
+                    zc = [bool_term(x) for x in np.asarray(zd.last_out)]      # the Z decision the decoder used
                     d = []
                     for i in range(n):
                         got = xd.pushed[1][i]
